@@ -13,7 +13,8 @@ import "github.com/twmb/franz-go/pkg/kmsg"
 // parked (a retry on a new connection). The step is what handleJoin does for a known member
 // in that state: updateMemberAndRebalance. After every step the coordinator's joined-member
 // count equals the number of parked JoinGroups, and the generation has moved only if every
-// member rejoined, with nobody evicted.
+// member still in the group rejoined, with nobody evicted. A member may also LEAVE while the
+// group waits (parked or not): it is forgotten, also by the joined-member count.
 func VerifC07_kfakeClassicJoinAccounting() {
 	c := &Cluster{}
 	c.cfg.logger = new(nopLogger)
@@ -48,26 +49,45 @@ func VerifC07_kfakeClassicJoinAccounting() {
 		steps = 5
 	}
 	var corr int32
+	left := map[string]bool{}
 	for s := 0; s < steps; s++ {
 		id := ids[verifChoose(n)]
 		m := g.members[id]
+		if left[id] {
+			continue // a member that left does not come back in this scenario
+		}
 		verifAssert(m != nil, "no member is evicted while the group waits for joins")
 		if m == nil {
 			return
 		}
-		corr++
-		cc := &clientConn{c: c, respCh: make(chan clientResp, 8), done: make(chan struct{})}
-		creq := &clientReq{cc: cc, kreq: mkJoin(id), corr: corr}
-		g.updateMemberAndRebalance(m, creq, creq.kreq.(*kmsg.JoinGroupRequest))
-		joined[id] = true
-
-		if g.generation != 3 {
-			all := true
-			for _, x := range ids {
+		remaining := 0
+		for _, x := range ids {
+			if !left[x] {
+				remaining++
+			}
+		}
+		if verifChoose(3) == 2 && remaining > 1 {
+			// the member leaves (LeaveGroup, or its session expires) whether or not its
+			// JoinGroup is parked: what handleLeave / the session timer do
+			g.updateMemberAndRebalance(m, nil, nil)
+			left[id] = true
+		} else {
+			corr++
+			cc := &clientConn{c: c, respCh: make(chan clientResp, 8), done: make(chan struct{})}
+			creq := &clientReq{cc: cc, kreq: mkJoin(id), corr: corr}
+			g.updateMemberAndRebalance(m, creq, creq.kreq.(*kmsg.JoinGroupRequest))
+			joined[id] = true
+		}
+		all, live := true, 0
+		for _, x := range ids {
+			if !left[x] {
+				live++
 				all = all && joined[x]
 			}
-			verifAssert(all, "a classic rebalance completes (generation bump, JoinGroup answered) only after every member of the group has rejoined")
-			verifAssert(len(g.members) == n, "completing the rebalance evicts nobody who rejoined")
+		}
+		if g.generation != 3 {
+			verifAssert(all, "a classic rebalance completes (generation bump, JoinGroup answered) only after every member still in the group has rejoined")
+			verifAssert(len(g.members) == live, "completing the rebalance evicts nobody who rejoined")
 			verifReached("c07-classic-completed")
 			return
 		}
@@ -78,13 +98,9 @@ func VerifC07_kfakeClassicJoinAccounting() {
 			}
 		}
 		verifAssert(g.state == groupPreparingRebalance, "the group keeps waiting while somebody has not rejoined")
-		verifAssert(g.nJoining == parked, "the coordinator's joined-member count equals the number of parked JoinGroup requests (a retried JoinGroup is not counted twice)")
-		verifAssert(len(g.members) == n, "no member is evicted while the group waits for joins")
-		all := true
-		for _, x := range ids {
-			all = all && joined[x]
-		}
-		verifAssert(!all, "once every member has rejoined the rebalance completes at once")
+		verifAssert(g.nJoining == parked, "the coordinator's joined-member count equals the number of parked JoinGroup requests (a retried JoinGroup is not counted twice, a departed joiner is not counted at all)")
+		verifAssert(len(g.members) == live, "exactly the members that left are gone")
+		verifAssert(!all, "once every remaining member has rejoined the rebalance completes at once")
 	}
 	verifReached("c07-classic")
 }
